@@ -308,8 +308,10 @@ def verify_contract(contract, shape, tier, rng, part=(0, 1), crosscheck=4):
             if r == 'sat':
                 w = model_value(m, inputs)
                 ok, failed, info = native_check(contract, w, shape)
-                out.append(ob(oid, 'refuted' if not ok else 'fault', functions=funcs, tier='P', time_s=dt, backend=be,
-                              witness=jsonable(w), detail=f'exception on a feasible path: {type(p.exc).__name__}: {p.exc}\n{tb}',
+                # the real code raised while running on symbolic values; the input solving the path condition decides: if the native run fails too it is a
+                # violation, otherwise the symbolic execution met a construct it cannot follow (a symbolic value used as a dict key, hashed, formatted, ...): undecided
+                out.append(ob(oid, 'refuted' if not ok else 'undecided', functions=funcs, tier='P', time_s=dt, backend=be,
+                              witness=jsonable(w) if not ok else None, detail=f'exception on a feasible path{"" if not ok else " of the SYMBOLIC run only (the native run on the input solving the path condition satisfies the contract)"}: {type(p.exc).__name__}: {p.exc}\n{tb}',
                               native=dict(confirmed=not ok, failed=failed, info=info)))
             else:
                 out.append(ob(oid, 'undecided', functions=funcs, tier='P', time_s=dt, backend=be, detail='path feasibility ' + r + '\n' + tb))
